@@ -161,12 +161,15 @@ def plan_applier(prog: Program, resolver: Optional[Resolver] = None) -> Tuple["F
     """The function that walks the plan and updates the magnitude: convert() itself, or a
     helper it delegates to (-> (function, name of the accumulated variable or None))."""
     from ..model import FuncInfo  # noqa: F401
+    from ..inline import inline_helpers
     conv = prog.func("conversions.convert")
 
     def has_plan_loop(fn: ast.AST) -> bool:
         return any(isinstance(n, ast.For) and isinstance(n.target, ast.Tuple) and len(n.target.elts) == 3 for n in ast.walk(fn))
-    if has_plan_loop(conv.node):
-        return conv, None
+    # a step or the whole loop may live in a helper with a single trailing return: decide the inlined body
+    inl = inline_helpers(prog, conv)
+    if has_plan_loop(inl.node):
+        return inl, None
     for n in ast.walk(conv.node):
         if isinstance(n, ast.Call) and isinstance(n.func, ast.Name):
             q = prog.modules["conversions"].functions.get(n.func.id)
@@ -178,7 +181,8 @@ def plan_applier(prog: Program, resolver: Optional[Resolver] = None) -> Tuple["F
 
 
 def check_convert(rep: Report, prog: Program) -> None:
-    fi = prog.func("conversions.convert")
+    applier, acc_name = plan_applier(prog)
+    fi = applier if applier.qual == "conversions.convert" else prog.func("conversions.convert")
     fn = fi.node
     params = fi.params()
     qparam, uparam = params[0], params[1]
@@ -186,7 +190,6 @@ def check_convert(rep: Report, prog: Program) -> None:
     rets = [n for n in ast.walk(fn) if isinstance(n, ast.Return)]
     if not rets:
         raise AnalysisError("conversions.convert has no return")
-    applier, acc_name = plan_applier(prog)
     accs: Set[str] = set()
     for i, r in enumerate(rets):
         v = r.value
@@ -224,7 +227,7 @@ def check_convert(rep: Report, prog: Program) -> None:
                 if isinstance(v, ast.Attribute) and v.attr == "magnitude":
                     rep.ok("R05.2", key, note="initial value")
                     continue
-                if applier is not prog.func("conversions.convert") and isinstance(v, ast.Name) and v.id == acc:
+                if applier.qual != "conversions.convert" and isinstance(v, ast.Name) and v.id == acc:
                     continue
                 coef = None
                 if isinstance(v, ast.Call) and isinstance(v.func, ast.Name) and v.func.id in ("_mul", "_add") and len(v.args) == 2:
